@@ -276,11 +276,14 @@ def run_shards(exe, args, nshards, timeout, env=None, out_prefix=None):
 # ---------------------------------------------------------------- known findings
 
 def load_known():
-    p = os.path.join(VERIF, "known_findings.json")
-    if not os.path.exists(p):
-        return []
-    with open(p) as fh:
-        return json.load(fh).get("findings", [])
+    import glob
+    out = []
+    # known_findings.json plus per-property files known_findings.d/*.json (same format; all committed, never written at run time)
+    for p in [os.path.join(VERIF, "known_findings.json")] + sorted(glob.glob(os.path.join(VERIF, "known_findings.d", "*.json"))):
+        if os.path.exists(p):
+            with open(p) as fh:
+                out.extend(json.load(fh).get("findings", []))
+    return out
 
 
 def classify(prop, violations):
